@@ -180,6 +180,23 @@ func rootD(v ssa.Value) (ssa.Value, bool) {
 				v = x.Call.Args[0]
 				continue
 			}
+			if f := x.Call.StaticCallee(); f != nil && f.Pkg != nil && !strings.HasPrefix(f.Pkg.Pkg.Path(), "github.com/ja7ad/otp") && strings.HasPrefix(f.Name(), "Append") {
+				// strconv.AppendUint, (*big.Int).Append, hex.AppendEncode, binary.BigEndian.AppendUint64, fmt.Appendf …: by the
+				// library's convention the result is the first byte-slice argument, extended (like the builtin append)
+				followed := false
+				for _, arg := range x.Call.Args {
+					if sl, ok := arg.Type().Underlying().(*types.Slice); ok {
+						if b, ok := sl.Elem().Underlying().(*types.Basic); ok && b.Kind() == types.Uint8 {
+							v = arg
+							followed = true
+							break
+						}
+					}
+				}
+				if followed {
+					continue
+				}
+			}
 			if f := x.Call.StaticCallee(); f != nil {
 				if gl, ok := retGlobalOf[f]; ok && gl != nil {
 					v = gl
@@ -1575,7 +1592,13 @@ func analyse(cfgName string, env []string, patterns []string, wantPkgs map[strin
 								case short == "(hash.Hash).Write" || strings.HasPrefix(short, "subtle.") || strings.HasPrefix(short, "bytes.") || strings.HasPrefix(short, "hex."):
 									code = "7|" // reads it, keeps nothing
 								default:
-									if g := c.StaticCallee(); g != nil && a.inRepo[g] && !retainsParam(a, g, ai, 0) {
+									g := c.StaticCallee()
+									if g != nil && !a.inRepo[g] {
+										if o := g.Origin(); o != nil && a.inRepo[o] {
+											g = o // an instance of a generic helper of the repository: its analysed body is the generic one
+										}
+									}
+									if g != nil && a.inRepo[g] && !retainsParam(a, g, ai, 0) {
 										code = "8|" // an internal helper that neither stores nor publishes its argument
 									}
 								}
